@@ -84,10 +84,16 @@ def Seg.endOverlapsWithStartOf (self other : Seg) : Except Err Bool := do
   let oe ← other.endPos
   return se.leqAny oe
 
-/-- `__trimNotAlignedPositionsFromEnd` (segments.py:122-127).  `not end` is always False
-    (an AlignedPair object is truthy).  `positions[-1]` raises IndexError once everything
-    has been popped. -/
+/-- `__trimNotAlignedPositionsFromEnd` (segments.py:122-126, after the `fix:` commit that re-checks
+    emptiness in the loop condition).  `not end` is always False (an AlignedPair object is truthy).
+    Never raises; kept in `Except` so that `slice` keeps its shape.  `trimEndUnguarded` below is the
+    loop before the repair. -/
 def trimEnd (e : Pr) (xs : List APos) : Except Err (List APos) :=
+  .ok (xs.reverse.dropWhile (fun a => !a.isPair && !a.leqAny e)).reverse
+
+/-- the loop before the repair (F11): `positions[-1]` raised IndexError once everything had been
+    popped -/
+def trimEndUnguarded (e : Pr) (xs : List APos) : Except Err (List APos) :=
   if xs.isEmpty then .ok []
   else
     let r := xs.reverse.dropWhile (fun a => !a.isPair && !a.leqAny e)
